@@ -330,7 +330,7 @@ Section Narrow.
 
   (* narrowing.rs:375-394  filter_variants_by_field.
      [by_overlap] selects the test applied to a variant's field type: `false` = is_compatible (the
-     code as it is), `true` = types_overlap (proposed repair hooks/fix_filter_variants.patch: after a
+     code as it is), `true` = types_overlap (fix d6406e8, F87: after a
      runtime test on the field succeeded, a variant whose field type merely OVERLAPS the tested type
      can still be the value). *)
   Fixpoint filter_loop (by_overlap : bool) (field_idx field_must_be_id : nat)
@@ -359,4 +359,4 @@ Section Narrow.
 End Narrow.
 
 (* which test /repo's filter_variants_by_field applies today *)
-Definition current_filter_by_overlap : bool := false.
+Definition current_filter_by_overlap : bool := true.   (* since fix d6406e8 (F87) *)
